@@ -130,6 +130,13 @@ def gen_cases(rng, tier):
     base = make_member(rng, 0, 5000, b"hello")
     for k in range(0, 12):
         add(base[:k], 1000, ["trunc%d" % k])
+    # an epoch later than today's date is used all the same (with a warning)
+    for flg in (0, 8, 28):
+        add(make_member(rng, flg, hd.FUTURE_EPOCH + 10 ** 8, b"payload of a member from the future"), hd.FUTURE_EPOCH, ["future-epoch", "flg%d" % flg])
+    add(make_member(rng, 0, hd.FUTURE_EPOCH, b"exactly at the epoch"), hd.FUTURE_EPOCH, ["future-epoch", "mt-at"])
+    # one of the two magic bytes right (compress, pack, a damaged gzip file), with a large value where MTIME would be
+    for two in (b"\x1f\x9d", b"\x1f\x1e", b"\x00\x8b", b"\x8b\x8b"):
+        add(two + base[2:4] + b"\xff\xff\xff\x7f" + base[8:], 1000, ["badmagic", "half-magic"])
     add(b"", 1000, ["empty"])
     add(b"\x1f\x8c" + base[2:], 1000, ["badmagic"])
     add(b"\x8b\x1f" + base[2:], 1000, ["badmagic"])
